@@ -8,6 +8,7 @@
 
    pstr <hex>                         -> <text hex>
    pca <hex>                          -> <text hex>
+   carr <parser flags> <array hex>    -> <text hex> <ret> <error> <error_loc> <reparsed array hex>
    pb64 <url 0|1> <hex>               -> <text hex>
    b64e <url> <pad> <hex>             -> <text hex>
    b64d <url> <dst_len> <hex>         -> <ret> <out hex> <consumed>
@@ -132,6 +133,18 @@ static void d_rec(C4_Rec_table_t t, int depth)
     if (!k) D("~"); else { D("["); for (i = 0; i < C4_Rec_vec_len(k); ++i) { d_rec(C4_Rec_vec_at(k, i), depth + 1); D(","); } D("]"); }
     D("}");
 }
+static void d_big(C4_Big_struct_t b) { if (!b) { D("~"); return; } D("(%lld,%llu)", (long long)C4_Big_l(b), (unsigned long long)C4_Big_u(b)); }
+static void d_nums(C4_Nums_table_t t)
+{
+    size_t i;
+    if (!t) { D("~"); return; }
+    D("Nums{l="); P(C4_Nums_l_is_present(t)); D("%lld u=", (long long)C4_Nums_l(t)); P(C4_Nums_u_is_present(t)); D("%llu", (unsigned long long)C4_Nums_u(t));
+    { flatbuffers_int64_vec_t v = C4_Nums_vl(t); D(" vl="); if (!v) D("~"); else { D("["); for (i = 0; i < flatbuffers_int64_vec_len(v); ++i) D("%lld,", (long long)flatbuffers_int64_vec_at(v, i)); D("]"); } }
+    { flatbuffers_uint64_vec_t v = C4_Nums_vu(t); D(" vu="); if (!v) D("~"); else { D("["); for (i = 0; i < flatbuffers_uint64_vec_len(v); ++i) D("%llu,", (unsigned long long)flatbuffers_uint64_vec_at(v, i)); D("]"); } }
+    D(" big="); d_big(C4_Nums_big(t));
+    { C4_Big_vec_t v = C4_Nums_vbig(t); D(" vbig="); if (!v) D("~"); else { D("["); for (i = 0; i < C4_Big_vec_len(v); ++i) d_big(C4_Big_vec_at(v, i)); D("]"); } }
+    D(" i="); P(C4_Nums_i_is_present(t)); D("%d w=", C4_Nums_i(t)); P(C4_Nums_w_is_present(t)); D("%u}", C4_Nums_w(t));
+}
 #define SCALAR(name, fmt, cast) do { D(" " #name "="); P(C4_Root_ ## name ## _is_present(t)); D(fmt, (cast)C4_Root_ ## name(t)); } while (0)
 #define BYTEVEC(name) do { flatbuffers_uint8_vec_t v = C4_Root_ ## name(t); D(" " #name "="); if (!v) D("~"); else { D("b%u:", (unsigned)flatbuffers_uint8_vec_len(v)); d_bytes(v, flatbuffers_uint8_vec_len(v)); } } while (0)
 static void d_root(C4_Root_table_t t)
@@ -180,6 +193,7 @@ static struct root roots[] = {
     { "Rec", C4_Rec_parse_json_as_root, C4_Rec_print_json_as_root, C4_Rec_verify_as_root_with_identifier, 4 },
     { "Pt", C4_Pt_parse_json_as_root, C4_Pt_print_json_as_root, C4_Pt_verify_as_root_with_identifier, 5 },
     { "Fix", C4_Fix_parse_json_as_root, C4_Fix_print_json_as_root, C4_Fix_verify_as_root_with_identifier, 6 },
+    { "Nums", C4_Nums_parse_json_as_root, C4_Nums_print_json_as_root, C4_Nums_verify_as_root_with_identifier, 7 },
     { 0, 0, 0, 0, 0 }
 };
 static char *dump_buffer(struct root *r, const void *buf, int presence)
@@ -193,6 +207,7 @@ static char *dump_buffer(struct root *r, const void *buf, int presence)
     case 4: d_rec(C4_Rec_as_root(buf), 0); break;
     case 5: d_pt(C4_Pt_as_root(buf)); break;
     case 6: d_fix(C4_Fix_as_root(buf)); break;
+    case 7: d_nums(C4_Nums_as_root(buf)); break;
     }
     return strdup(dbuf);
 }
@@ -251,6 +266,20 @@ int main(void)
                 print_char_array(&pc, s, len); free(s);
             }
             out_text(&pc); free(p);
+        } else if (!strcmp(t[0], "carr") && n == 3) {
+            /* carr <parser flags> <array hex>: print_char_array of the n-byte array, then flatcc_json_parser_char_array of that text
+               (on an exact heap copy) back into an n-byte array: <text hex> <ret - start> <error> <error_loc - start> <array hex> */
+            uint8_t *p; size_t len = hx_decode(t[2], &p), tn; flatcc_json_parser_t pc; flatcc_json_printer_t pr; char *text, *in, *arr; void *fr; const char *ret;
+            char *s = (char *)malloc(len ? len : 1); memcpy(s, p, len);
+            flatcc_json_printer_init_dynamic_buffer(&pr, 0);
+            print_char_array(&pr, s, len);
+            text = (char *)flatcc_json_printer_finalize_dynamic_buffer(&pr, &tn); flatcc_json_printer_clear(&pr);
+            in = exact_copy_bytes((uint8_t *)text, tn, &fr);
+            arr = (char *)malloc(len ? len : 1); memset(arr, 0xee, len ? len : 1);
+            flatcc_json_parser_init(&pc, 0, in, in + tn, (flatcc_json_parser_flags_t)atoi(t[1]));
+            ret = flatcc_json_parser_char_array(&pc, in, in + tn, arr, len);
+            hx_print((uint8_t *)text, tn); printf(" %ld %d %ld ", (long)(ret - in), pc.error, (long)(pc.error_loc - in)); hx_print((uint8_t *)arr, len);
+            free(arr); free(fr); free(text); free(s); free(p);
         } else if (!strcmp(t[0], "pb64") && n == 3) {
             uint8_t *p; size_t len = hx_decode(t[2], &p); flatcc_json_printer_t pc; uint8_t *vec = (uint8_t *)malloc(len + 4);
             uint32_t l32 = (uint32_t)len; memcpy(vec, &l32, 4); memcpy(vec + 4, p, len);
